@@ -1,8 +1,200 @@
 /-
-  Props.C13 — property theorems for C13 (wallet-built transactions). Theorems ONLY.
+  Props.C13 — property theorems for C13 (wallet-built transactions pay exactly what was asked and are fully
+  valid). Theorems ONLY; helper lemmas are in GocoinV/Proofs/C13*.lean. All statements are about the
+  definitions of Model/WalletTx.lean that the oracle executes and the harness compares with the wallet binary.
 -/
-import GocoinV.Model.WalletTx
+import GocoinV.Proofs.C13
+import GocoinV.Proofs.C13Sig
+import GocoinV.Proofs.C13Demo
 namespace GocoinV.Props.C13
-open GocoinV GocoinV.WalletTx
+open GocoinV GocoinV.WalletTx GocoinV.WalletSpec
+
+/-- **pays_exactly.** Whenever the model of a `-send`/`-batch` run writes a transaction `w`:
+    its outputs are the requested (address, amount) pairs in order, followed by one change output iff the change
+    is > 0 (value = change, script = the change address's script), followed by the OP_RETURN message iff `-msg`;
+    its inputs are a sub-list (in file order) of the listed unspent outputs, all of them the wallet's own, with the
+    asked sequence number; version and lock time are the asked ones; and — when the requested amounts plus the fee
+    stay below 2^64 — Σ inputs = Σ outputs + fee exactly.
+    Hypothesis: the wallet's own listed balance is below 2^64 satoshi. -/
+theorem pays_exactly (H : Addr.Hashes) (c : Cfg) (ks : List KeyRec) (a2b : Bool) (coins : List Coin)
+    (send : Option Bytes) (batch : Option (List Bytes)) (sig : Skeleton → SigFn) (w : Written)
+    (hrun : runSend H c ks a2b coins send batch sig = .ok (some w))
+    (hbal : ownedSum ks coins < 2^64) :
+    ∃ req b outs chg,
+      sendRequest H c send batch = .ok req ∧ build H c ks coins req = .ok b ∧
+      PaysAll req.1 outs ∧
+      w.tx.outs = outs ++ chg ++ (if c.msg.isEmpty then [] else [{ value := 0, script := msgScript c.msg }]) ∧
+      (w.change = 0 → chg = []) ∧
+      (0 < w.change → ∃ a s, changeAddr H c ks coins = .ok a ∧ Addr.outScript a = some s ∧
+          chg = [{ value := w.change, script := s }]) ∧
+      w.tx.ins.map (fun i => (i.txid, i.vout, i.sequence)) = b.spent.map (fun u => (u.txid, u.vout, c.seq)) ∧
+      w.tx.version = c.version ∧ w.tx.lockTime = c.lockTime ∧
+      b.spent.Sublist coins ∧ (∀ u ∈ b.spent, owned ks u = true) ∧
+      (amtSum req.1 + c.fee < 2^64 → valSum b.spent = outSum w.tx.outs + c.fee) := by
+  unfold runSend at hrun
+  cases hreq : sendRequest H c send batch with
+  | error e => simp [hreq] at hrun
+  | ok req =>
+    simp only [hreq] at hrun
+    split at hrun
+    · simp at hrun
+    · cases hb : build H c ks coins req with
+      | error e => simp [hb] at hrun
+      | ok b =>
+        simp only [hb, Except.ok.injEq, Option.some.injEq] at hrun
+        subst hrun
+        obtain ⟨outs, chg, h1, h2, h3, h4, h5, h6, h7, _, h9, h10, h11⟩ := build_spec H c ks coins req b hb hbal
+        refine ⟨req, b, outs, chg, rfl, hb, h1, ?_, h3, h4, ?_, ?_, ?_, h9, h10, ?_⟩
+        · simpa [signTx] using h2
+        · have := signTx_skeleton H c ks sig (fun _ => none) b.tx
+            (b.spent.map (fun u => some { value := u.value, script := u.script }))
+          have hop := congrArg Skeleton.outpoints this
+          simp only [skeleton] at hop
+          rw [hop, h5]
+          simp [List.map_map, Function.comp_def]
+        · simpa [signTx] using h6
+        · simpa [signTx] using h7
+        · intro hnw
+          have hinv : req.2 = u64 (amtSum req.1) := sendRequest_inv H c send batch req hreq
+          have ha : u64 (amtSum req.1) = amtSum req.1 := u64_of_lt (by omega)
+          rw [hinv, ha, u64_of_lt hnw] at h11
+          have ho : outSum (signTx H c ks sig (fun _ => none) b.tx
+              (b.spent.map (fun u => some { value := u.value, script := u.script }))).1.outs
+              = amtSum req.1 + b.change := by
+            have : (signTx H c ks sig (fun _ => none) b.tx
+              (b.spent.map (fun u => some { value := u.value, script := u.script }))).1.outs = b.tx.outs := by
+              simp [signTx]
+            rw [this, h2]
+            have hm : outSum (if c.msg.isEmpty then [] else [({ value := 0, script := msgScript c.msg } : TxOut)]) = 0 := by
+              split <;> simp [outSum]
+            have hc : outSum chg = b.change := by
+              rcases Nat.eq_zero_or_pos b.change with hz | hp
+              · rw [h3 hz, hz]; rfl
+              · obtain ⟨a, s, _, _, hchg⟩ := h4 hp
+                rw [hchg]; simp [outSum]
+            have happ : ∀ a b : List TxOut, outSum (a ++ b) = outSum a + outSum b := by
+              intro a b; simp [outSum, List.map_append, List.sum_append]
+            rw [happ, happ, hm, hc, forall2_outSum _ _ h1]
+            omega
+          simp only [] at ho ⊢
+          omega
+
+/-- **inputs_distinct.** If the lines of unspent.txt name pairwise distinct outpoints, the inputs selected by
+    make_signed_tx are pairwise distinct outpoints, each of them listed. -/
+theorem inputs_distinct (H : Addr.Hashes) (c : Cfg) (ks : List KeyRec) (coins : List Coin) (req : Req) (b : Built)
+    (hb : build H c ks coins req = .ok b) (hbal : ownedSum ks coins < 2^64)
+    (hnd : (coins.map outpoint).Nodup) :
+    (b.spent.map outpoint).Nodup ∧ ∀ u ∈ b.spent, u ∈ coins := by
+  obtain ⟨_, _, _, _, _, _, _, _, _, _, hsub, _, _⟩ := build_spec H c ks coins req b hb hbal
+  exact ⟨(hsub.map outpoint).nodup hnd, fun u hu => hsub.subset hu⟩
+
+/-- **insufficient_writes_nothing.** If the wallet's own listed outputs sum to less than payments + fee
+    (no wrap-around: payments + fee < 2^64), the run ends in `cleanExit(1)` and writes nothing — whatever the
+    options (-useallinputs, -change, -msg …). -/
+theorem insufficient_writes_nothing (H : Addr.Hashes) (c : Cfg) (ks : List KeyRec) (a2b : Bool) (coins : List Coin)
+    (send : Option Bytes) (batch : Option (List Bytes)) (sig : Skeleton → SigFn) (req : Req)
+    (hreq : sendRequest H c send batch = .ok req) (hne : req.1 ≠ [])
+    (hnw : amtSum req.1 + c.fee < 2^64) (hlow : ownedSum ks coins < amtSum req.1 + c.fee) :
+    runSend H c ks a2b coins send batch sig = .error .exit1 := by
+  have hinv : req.2 = u64 (amtSum req.1) := sendRequest_inv H c send batch req hreq
+  have ha : u64 (amtSum req.1) = amtSum req.1 := u64_of_lt (by omega)
+  have hb := build_insufficient H c ks coins req (by rw [hinv, ha]; exact hnw) (by rw [hinv, ha]; exact hlow)
+  unfold runSend
+  simp only [hreq, hb]
+  have : req.1.isEmpty = false := by
+    cases h : req.1 with
+    | nil => exact absurd h hne
+    | cons _ _ => rfl
+  simp [this]
+
+/-- **raw_sign_preserves.** sign_tx (and therefore `-raw` signing and the signing step of `-send`) never alters
+    version, lock time, the outpoints, the sequence numbers or the outputs of the transaction it is given:
+    only scriptSig and witness data change. Holds for every signature function and every multisig result. -/
+theorem raw_sign_preserves (H : Addr.Hashes) (c : Cfg) (ks : List KeyRec) (sig : Skeleton → SigFn) (ms : MsFn)
+    (t : Tx) (spent : List (Option TxOut)) :
+    skeleton (runRaw H c ks t spent sig ms).1 = skeleton t :=
+  signTx_skeleton H c ks sig ms t spent
+
+/-- non-vacuity of `raw_sign_preserves`' content: the skeleton really contains outputs and outpoints -/
+example : (skeleton { version := 2, ins := [⟨[1], 0, [9], 5⟩], outs := [⟨7, [0x6a]⟩], wit := none, lockTime := 3 }).outpoints
+    = [([1], 0, 5)] := by decide
+
+/-- **change_is_own_address.** Without `-change`, the change address is derived from a listed unspent output
+    that the wallet recognises as its own (pkscr_to_key ≠ nil), and the change output pays to exactly that
+    output's script — i.e. to one of the wallet's own addresses. Hypotheses: HASH160 yields 20 bytes, keys are
+    33-byte compressed, and every output the wallet recognises as own has one of the four own shapes
+    (`hshape`; it excludes HASH160 collisions such as a P2PKH to the all-zero hash in bech32 mode — see report). -/
+theorem change_is_own_address (H : Addr.Hashes) (c : Cfg) (pubs : List Bytes) (coins : List Coin) (a : Addr.Addr)
+    (hash_len : ∀ b, (H.hash160 b).length = 20) (pub_len : ∀ p ∈ pubs, p.length = 33)
+    (hshape : ∀ u ∈ coins, owned (keyTable H c.bech32 pubs) u = true → OwnScript c (keyTable H c.bech32 pubs) u.script)
+    (hc : c.change = none) (h : changeAddr H c (keyTable H c.bech32 pubs) coins = .ok a) :
+    ∃ u, u ∈ coins ∧ owned (keyTable H c.bech32 pubs) u = true ∧ Addr.outScript a = some u.script := by
+  obtain ⟨u, hu, ho, hf⟩ := changeAddr_default H c _ coins a hc h
+  exact ⟨u, hu, ho, outScript_fromPkScript_own H c pubs u.script a hash_len pub_len (hshape u hu ho) hf⟩
+
+/-- **signatures_verify.** For every input `i` of a transaction handed to sign_tx without witness data whose spent
+    output is one of the wallet's own four types (P2PKH, P2WPKH, P2SH-P2WPKH when not in bech32 mode, P2TR key
+    path), the signed transaction's input `i` passes `Spec.verifyInput` — the specialisation of consensus +
+    standard script verification to these templates: right template, right public key (HASH160 / x-only match),
+    right scriptCode, amount and digest kind, hash type ALL / DEFAULT, push-only minimal scriptSig, clean
+    witness; and later signing steps do not invalidate it (the digests are functions of the skeleton).
+    NAMED HYPOTHESES (trusted base, not axioms):
+      `sign_verify_ecdsa`, `sign_verify_schnorr` — C03's statement: a signature made with key k verifies under
+         k's public key for the same digest; `der_len`, `schnorr_len` — DER signatures have 1..74 bytes (so that
+         `byte(len)` is a direct push), Schnorr signatures 64;
+      digest-signed = digest-verified — C02's statement, built into the types: `Crypto.legacyDigest /
+         witnessDigest / taprootDigest` take the `Skeleton` (and the spent outputs), nothing else;
+      `hash_same`, `hash_len` — the verifier's HASH160 is the wallet's and yields 20 bytes;
+      `no_cross` — no key's HASH160 equals another key's P2SH-redeem hash (or, in bech32 mode, 20 zero bytes);
+      `haddr` — NewAddrFromPkScript returns non-nil for the spent script (bech32 encoding succeeds);
+      `hss` — a native witness input arrives with an empty scriptSig (always so for -send; the supplier's duty for -raw). -/
+theorem signatures_verify (H : Addr.Hashes) (C : Crypto) (S : Signer) (c : Cfg) (pubs : List Bytes) (ms : MsFn)
+    (t : Tx) (spent : List TxOut) (i : Nat) (inp : TxIn) (uo : TxOut)
+    (hash_same : C.hash160 = H.hash160) (hash_len : ∀ b, (H.hash160 b).length = 20)
+    (sign_verify_ecdsa : ∀ k kr, (keyTable H c.bech32 pubs)[k]? = some kr → ∀ d, C.ecdsaVerify kr.pub (S.ecdsa k d) d = true)
+    (der_len : ∀ k d, 1 ≤ (S.ecdsa k d).length ∧ (S.ecdsa k d).length ≤ 74)
+    (sign_verify_schnorr : ∀ k kr, (keyTable H c.bech32 pubs)[k]? = some kr → ∀ d,
+        C.schnorrVerify ((kr.pub.drop 1).take 32) (S.schnorr k d) d = true)
+    (schnorr_len : ∀ k d, (S.schnorr k d).length = 64)
+    (no_cross : NoCross (keyTable H c.bech32 pubs))
+    (pub_len : ∀ p ∈ pubs, p.length = 33)
+    (hwit : t.wit = none) (hin : t.ins[i]? = some inp) (hsp : spent[i]? = some uo) (hms : ms i = none)
+    (hown : OwnScript c (keyTable H c.bech32 pubs) uo.script)
+    (haddr : (Addr.fromPkScript H uo.script c.testnet).isSome)
+    (hss : inp.scriptSig = [] ∨ uo.script.length = 25 ∨ uo.script.length = 23) :
+    verifyInput C (runRaw H c (keyTable H c.bech32 pubs) t (spent.map some) (sigOf C S spent) ms).1 spent i = true :=
+  verify_aux H C S c pubs ms t spent i inp uo hash_same hash_len sign_verify_ecdsa der_len sign_verify_schnorr
+    schnorr_len no_cross pub_len hwit hin hsp hms hown haddr hss
+
+/-- `stringToSatoshis` on a plain decimal `w.ffffffff` (8 fraction digits) is exact below 2^64 and WRAPS above
+    (DESIGN O4, outside the property's quantifier): 184467440737.09551616 BTC = 2^64 satoshi parses as 0. -/
+theorem stringToSatoshis_wraps :
+    stringToSatoshis (strBytes "184467440737.09551616") = .ok 0 ∧
+    stringToSatoshis (strBytes "184467440737.09551615") = .ok (2^64 - 1) ∧
+    stringToSatoshis (strBytes "0.00000001") = .ok 1 := by
+  refine ⟨?_, ?_, ?_⟩ <;> decide +kernel
+
+/-! ### non-vacuity: the hypotheses are satisfiable and the conclusions are observed on a concrete instance
+    (toy hash / always-true verifier from Proofs/C13Demo.lean; one P2PKH coin of 0.6 BTC, pay 0.5 BTC, fee 1000) -/
+section NonVacuity
+open GocoinV.WalletTx.Demo
+
+/-- the request parses: one destination, spendBtc = 0.5 BTC -/
+example : ((okReq (sendRequest H0 c0 (some send0) none)).map (fun q => (q.1.length, q.2))) = some (1, 50000000) := by decide +kernel
+
+/-- insufficient_writes_nothing: empty balance ⇒ exit 1 -/
+example : isExit1 (runSend H0 c0 ks0 true [] (some send0) none (fun _ _ _ => [])) = true := by decide +kernel
+
+/-- pays_exactly: one input, outputs [0.5 BTC, change 0.09999 BTC], fee 1000 -/
+example : ((written (runSend H0 c0 ks0 true [coin0] (some send0) none (fun _ _ _ => [0x30]))).map
+    (fun w => (w.tx.ins.length, w.tx.outs.map (·.value), w.change))) = some (1, [50000000, 9999000], 9999000) := by decide +kernel
+
+/-- signatures_verify: all hypotheses discharged for the toy instance (P2PKH input) -/
+example : verifyInput C0 (runRaw H0 c0 (keyTable H0 c0.bech32 [pub0]) t0 ([uo0].map some) (sigOf C0 S0 [uo0]) (fun _ => none)).1 [uo0] 0 = true :=
+  signatures_verify H0 C0 S0 c0 [pub0] (fun _ => none) t0 [uo0] 0 inp0 uo0 rfl (by intro b; simp [H0])
+    (by intros; rfl) (by intro k d; simp [S0]) (by intros; rfl) (by intro k d; simp [S0]) noCross0
+    (by simp [pub0]) rfl rfl rfl rfl (OwnScript.p2pkh 0 (mkKey H0 false pub0) rfl) (by decide +kernel) (Or.inl rfl)
+
+end NonVacuity
 
 end GocoinV.Props.C13
